@@ -2,6 +2,7 @@ SPECIFICATION Spec
 CONSTANTS
     Resend = 2000
     Retries = 10
+    ReAckAnyNonce = FALSE
     Linger = 20000
 INVARIANT CONF
 INVARIANT Report
